@@ -21,7 +21,7 @@ CONSTANTS Period,      \* housekeeping period              1000
           Batch,       \* largest batch                      32
           RejoinMs,    \* reconnect bound after a repair  30000
           MaxL,
-          Check        \* which properties' clauses are asserted: a subset of {"C01", "C04", "C06", "C07", "C08", "C09", "C10", "C14", "C20"}
+          Check        \* which properties' clauses are asserted: a subset of {"C01", "C03", "C04", "C06", "C07", "C08", "C09", "C10", "C14", "C20"}
                        \* (the observer's own state always advances; each check names its property)
 
 Rec == ndJsonDeserialize(IOEnv.TRACE)
@@ -130,6 +130,10 @@ Uplink(r) ==
        \* C20 (publish never blocks the loop): with subscribers that never read, nothing accepted waits longer than a
        \* flush tick -- a loop parked in a publish flushes nothing
        /\ "C20" \in Check => \A x \in o1 : x.must => r.t - x.t <= FlushMs
+       \* C03 (no blackout): while some uplink is usable, a datagram is never dropped by the scheduler, whatever gates
+       \* are engaged -- on the wire: it has left within a flush tick (schedules with a black-holed, failing or
+       \* restarting far end, where stall guard, silence pull and in-flight caps do engage)
+       /\ "C03" \in Check => \A x \in o1 : x.must => r.t - x.t <= FlushMs
        /\ "C01" \in Check =>
             /\ w.ok
             \* nothing accepted in an established session waits longer than one flush tick, or behind more than
